@@ -398,7 +398,7 @@ theorem loop_paused_frame (s s' : CS) (w : CWl) (hgone : s.gone = false) (hfin :
     have hro : (roWorld s).ro = s.ro := rfl
     rw [hro, if_pos ⟨hroll, hp, hc, by simp [hnr], by simp [hen]⟩] at hpn
     simp only [Bool.and_eq_true, beq_iff_eq] at hpn
-    obtain ⟨⟨⟨⟨hbr, hnet⟩, hwl'⟩, _⟩, hsub⟩ := hpn
+    obtain ⟨⟨⟨⟨⟨hbr, hnet⟩, hwl'⟩, _⟩, _⟩, hsub⟩ := hpn
     have hmem : True := trivial
     subst hs
     have hbr' : r.w.br = (roWorld s).br := hbr
